@@ -29,7 +29,7 @@ def main():
     import faulthandler
     import signal
 
-    limit = int(os.environ.get("VERIF_TIMEOUT", "3600" if a.tier == "quick" else "28800"))
+    limit = int(os.environ.get("VERIF_TIMEOUT", "1800" if a.tier == "quick" else "28800"))
 
     def _giveup(signum, frame):
         print(f"harness error: {pid} {a.tier} exceeded {limit}s wall clock; giving up", file=sys.stderr)
